@@ -305,7 +305,7 @@ def check (db : Tables) : Action → Option Err
     | some dt =>     -- CREATE TABLE fails: reconcile with the existing table
       if !pkSetEq dt.tbl.pk t.pk then some .importedPkMismatch
       else if !colsMapEq dt.tbl.cols t.cols then some .importedColsMismatch
-      else if !crrOk dt.tbl then some .sqlite
+      else if !crrOk dt.tbl || dt.tbl.idx.any (fun e => e.2.unique) then some .sqlite   -- cr-sqlite: no unique index besides the key
       else none
     | none =>
       if nameTaken db n || !crrOk t ||
